@@ -99,30 +99,41 @@ def item_or_raise(x):
     return y
 
 
-def swallow_everything(marker=None):
-    """uncooperative target: keeps running whatever exception is thrown at it"""
-    while True:
+def swallow_everything(marker=None, started=None):
+    """uncooperative target: keeps running whatever exception is thrown at it (until the escape-hatch file appears)"""
+    if started:
+        open(started, 'w').close()
+    while not (marker and os.path.exists(marker)):
         try:
-            while True:
+            while not (marker and os.path.exists(marker)):
                 time.sleep(0.01)
         except BaseException:
             continue
+    return 'released'
 
 
-def sleep_forever():
+def sleep_forever(started=None):
+    if started:
+        open(started, 'w').close()
     time.sleep(100000)
 
 
-def hold_gil():
+def hold_gil(started=None):
+    if started:
+        open(started, 'w').close()
     return sum(range(10 ** 11))
 
 
-def stop_self():
+def stop_self(started=None):
+    if started:
+        open(started, 'w').close()
     os.kill(os.getpid(), signal.SIGSTOP)
     time.sleep(100000)
 
 
-def coop_loop(seconds=100000):
+def coop_loop(seconds=100000, started=None):
+    if started:
+        open(started, 'w').close()
     end = time.time() + seconds
     while time.time() < end:
         time.sleep(0.005)
